@@ -221,7 +221,7 @@ def real_history(run, st, nprog):
     for i in range(nprog):
         seed = run.rng.randrange(10 ** 6)
         try:
-            progs.append((seed, pipeline.generate("java", seed, (i % 2, 0, (i // 2) % 2, 0), 5)))
+            progs.append((seed, pipeline.generate("java", seed, (i % 2, 0, (i // 2) % 2, 0), 4 if run.tier == "quick" else 5)))
         except Exception as e:     # a generator failure is C18's business
             run.tally("pipeline", "exception:history-gen:" + type(e).__name__)
     if len(progs) < 2:
@@ -350,7 +350,7 @@ def signature(stage, text, msgs, block):
 def javac_start(run, ex, files, quick):
     """submit one stage's files (one source tree) as the reference batch and, concurrently, a random sample file by file"""
     byf = {f["pkg"]: f for f in files}
-    nalone = 3 if quick else 12
+    nalone = 2 if quick else 12
     sample = run.rng.sample(sorted(byf), min(len(byf), nalone))
     return {"files": files, "byf": byf, "t0": time.time(), "nalone": nalone, "batch": ex.submit(compile_batch, files),
             "alone": {p: ex.submit(compile_batch, [byf[p]]) for p in sample}}
@@ -491,7 +491,7 @@ def check(run):
     chunk = 320
     files, reqs_all, metas_all = [], [], []
     for a in range(0, len(specs), chunk):
-        results = run_budgeted(run, specs[a:a + chunk], 65) if quick else pipeline.run_many(specs[a:a + chunk])
+        results = run_budgeted(run, specs[a:a + chunk], 55) if quick else pipeline.run_many(specs[a:a + chunk])
         fs, reqs, metas = text_stream(run, st, results)
         files += fs
         if a == 0:
